@@ -139,7 +139,8 @@ func inverse(c cfgSpec, deploy string) cfgSpec {
 //	quick:    every ordered pair of base that differs in exactly ONE list (one edit of the file: a list
 //	          appears, disappears, grows or shrinks) — together with the all-lists-rotated reload from the "old"
 //	          configuration that behaviouralConfigs already has
-//	thorough: every ordered pair of base, the identical reload included
+//	thorough: every ordered pair of base, the identical reload included (the pairs that are not in quick run the
+//	          quick-size table: cfgSpec.Lean)
 //	restart-required direction: for every ordered pair of DIFFERENT deployments (split / prefix / shared) and
 //	          every A of base (quick: two of them) the reload to inverse(A) in the other deployment.
 func reloadPairs(r *runner.Run) []cfgSpec {
@@ -167,6 +168,7 @@ func reloadPairs(r *runner.Run) []cfgSpec {
 			s := b
 			f := a.lists()
 			s.From = &f
+			s.Lean = d != 1
 			out = append(out, s)
 			r.Add("reload_pairs_token_only", 1)
 			r.Add(fmt.Sprintf("reload_pairs_differing_in_%d_lists", d), 1)
@@ -180,14 +182,16 @@ func reloadPairs(r *runner.Run) []cfgSpec {
 			}
 			for _, a := range base {
 				// quick: (g1 | a1 | - | -) and (g1,g2 | - | b1 | t1)
-				if r.Quick() && !(len(a.Global) == 1 && len(a.A) == 1 && len(a.B) == 0 && len(a.Admin) == 0) &&
-					!(len(a.Global) == 2 && len(a.A) == 0 && len(a.B) == 1 && len(a.Admin) == 1) {
+				inQuick := (len(a.Global) == 1 && len(a.A) == 1 && len(a.B) == 0 && len(a.Admin) == 0) ||
+					(len(a.Global) == 2 && len(a.A) == 0 && len(a.B) == 1 && len(a.Admin) == 1)
+				if r.Quick() && !inQuick {
 					continue
 				}
 				a.Deploy = d1
 				s := inverse(a, d2)
 				f := a.lists()
 				s.From = &f
+				s.Lean = !inQuick
 				out = append(out, s)
 				r.Add("reload_pairs_other_deployment", 1)
 			}
